@@ -7,8 +7,24 @@ use lsm_tree::{AbstractTree, Config, Guard, KvSeparationOptions, SeqNo, Sequence
 use std::path::{Path, PathBuf};
 use std::sync::Arc;
 
+/// trees #2, #3 (mod 4): partitioned (two-level) index and filter blocks on every level, nothing pinned, so that index
+/// partitions are loaded on demand by every read path
+static PARTITIONED: std::sync::atomic::AtomicBool = std::sync::atomic::AtomicBool::new(false);
+
+fn physical(c: Config) -> Config {
+    use lsm_tree::config::PinningPolicy;
+    if PARTITIONED.load(std::sync::atomic::Ordering::SeqCst) {
+        c.index_block_partitioning_policy(PinningPolicy::all(true))
+            .filter_block_partitioning_policy(PinningPolicy::all(true))
+            .index_block_pinning_policy(PinningPolicy::all(false))
+            .filter_block_pinning_policy(PinningPolicy::all(false))
+    } else {
+        c
+    }
+}
+
 fn cfg(p: &Path, blob: bool, a: u64, bs: u32) -> Config {
-    let c = Config::new(p, SequenceNumberCounter::new(a), SequenceNumberCounter::new(a))
+    let c = physical(Config::new(p, SequenceNumberCounter::new(a), SequenceNumberCounter::new(a)))
         .data_block_size_policy(lsm_tree::config::BlockSizePolicy::all(bs))
         .use_cache(Arc::new(lsm_tree::Cache::with_capacity_bytes(0)));
     if blob {
@@ -20,45 +36,78 @@ fn cfg(p: &Path, blob: bool, a: u64, bs: u32) -> Config {
 
 type Answers = Vec<(Vec<u8>, Vec<u8>)>;
 
-/// all read paths: forward scan, reverse scan, point reads of every key of the universe, len
+/// all read paths, each judged ON ITS OWN (a path that reports the corruption must not hide another one that silently
+/// returns different data): forward scan, reverse scan, point reads of every key of the universe, first / last key, len,
+/// a scan at an older snapshot. One entry per path: (`--path:<name>--`, serialised answer | `ERR`).
 fn answers(p: &Path, blob: bool, s: SeqNo, bs: u32, universe: &[K]) -> Result<Answers, String> {
-    let r = std::panic::catch_unwind(|| -> Result<Answers, String> {
+    use std::panic::{catch_unwind, AssertUnwindSafe};
+    let r = catch_unwind(|| -> Result<Answers, String> {
         let t = cfg(p, blob, s, bs).open().map_err(|e| format!("open:{e:?}"))?;
-        let mut out = vec![];
-        for g in t.iter(s, None) {
-            let (k, v) = g.into_inner().map_err(|e| format!("scan:{e:?}"))?;
-            out.push((k.to_vec(), v.to_vec()));
-        }
-        let mut rev = vec![];
-        for g in t.iter(s, None).rev() {
-            let (k, v) = g.into_inner().map_err(|e| format!("rscan:{e:?}"))?;
-            rev.push((k.to_vec(), v.to_vec()));
-        }
-        rev.reverse();
-        if rev != out {
-            return Ok(vec![(b"REVERSE-SCAN-DIFFERS".to_vec(), vec![])]);
-        }
-        for k in universe {
-            let got = t.get(k, s).map_err(|e| format!("get:{e:?}"))?.map(|v| v.to_vec());
-            let want = out.iter().find(|(kk, _)| kk == k).map(|(_, v)| v.clone());
-            if got != want {
-                return Ok(vec![(b"POINT-READ-DIFFERS".to_vec(), k.clone())]);
+        let mut out: Answers = vec![];
+        let mut path = |name: &str, f: &dyn Fn() -> Result<String, String>| {
+            if std::env::var("LSMVERIF_FLIP_TRACE").is_ok() {
+                eprintln!("path {name}");
             }
-        }
+            let v = match catch_unwind(AssertUnwindSafe(f)) {
+                Ok(Ok(v)) => v.into_bytes(),
+                _ => b"ERR".to_vec(),
+            };
+            out.push((format!("--path:{name}--").into_bytes(), v));
+        };
+        let scan = |snap: SeqNo, rev: bool| -> Result<String, String> {
+            let mut l = vec![];
+            // stop at the first error: an iterator need not be fused after it reported one
+            let it = t.iter(snap, None);
+            if rev {
+                for g in it.rev() {
+                    let (k, v) = g.into_inner().map_err(|e| format!("{e:?}"))?;
+                    l.push((hex(&k), hex(&v)));
+                }
+            } else {
+                for g in it {
+                    let (k, v) = g.into_inner().map_err(|e| format!("{e:?}"))?;
+                    l.push((hex(&k), hex(&v)));
+                }
+            }
+            if rev {
+                l.reverse();
+            }
+            Ok(format!("{l:?}"))
+        };
+        path("scan", &|| scan(s, false));
+        path("reverse-scan", &|| scan(s, true));
+        path("point-reads", &|| {
+            let mut l = vec![];
+            for k in universe {
+                if let Some(v) = t.get(k, s).map_err(|e| format!("{e:?}"))? {
+                    l.push((hex(k), hex(&v)));
+                }
+            }
+            Ok(format!("{l:?}"))
+        });
+        path("first-key", &|| Ok(format!("{:?}", match t.first_key_value(s, None) { Some(g) => { let (k, v) = g.into_inner().map_err(|e| format!("{e:?}"))?; Some((hex(&k), hex(&v))) } None => None })));
+        path("last-key", &|| Ok(format!("{:?}", match t.last_key_value(s, None) { Some(g) => { let (k, v) = g.into_inner().map_err(|e| format!("{e:?}"))?; Some((hex(&k), hex(&v))) } None => None })));
+        path("len", &|| Ok(format!("{}", t.len(s, None).map_err(|e| format!("{e:?}"))?)));
         // an older snapshot too (visibility must not silently change either)
-        let mid = s / 2;
-        let mut older = vec![];
-        for g in t.iter(mid, None) {
-            let (k, v) = g.into_inner().map_err(|e| format!("scan-old:{e:?}"))?;
-            older.push((k.to_vec(), v.to_vec()));
-        }
-        out.push((b"--older-snapshot--".to_vec(), format!("{older:?}").into_bytes()));
+        path("scan-older-snapshot", &|| scan(s / 2, false));
+        path("reverse-scan-older-snapshot", &|| scan(s / 2, true));
         Ok(out)
     });
     match r {
         Ok(x) => x,
         Err(_) => Err("panic".into()),
     }
+}
+
+/// paths whose answer differs from the original WITHOUT an error (`ERR` = the corruption was reported on that path)
+fn silent_paths(d: &Answers, orig: &Answers) -> Vec<String> {
+    let mut v = vec![];
+    for (i, (name, val)) in d.iter().enumerate() {
+        if val.as_slice() != b"ERR" && orig.get(i).map(|o| &o.1) != Some(val) {
+            v.push(String::from_utf8_lossy(name).to_string());
+        }
+    }
+    v
 }
 
 /// run a probe with a watchdog: a read path that spins forever on corrupted bytes is reported, not waited for
@@ -100,7 +149,7 @@ fn copy_dir(src: &Path, dst: &Path) {
 
 fn build_tree(dir: &Path, blob: bool, rng: &mut Rng, bs: u32, universe: &[K]) -> SeqNo {
     let (seqno, vis) = (SequenceNumberCounter::default(), SequenceNumberCounter::default());
-    let c = Config::new(dir, seqno.clone(), vis.clone()).data_block_size_policy(lsm_tree::config::BlockSizePolicy::all(bs));
+    let c = physical(Config::new(dir, seqno.clone(), vis.clone())).data_block_size_policy(lsm_tree::config::BlockSizePolicy::all(bs));
     let c = if blob { c.with_kv_separation(Some(KvSeparationOptions::default().separation_threshold(6).file_target_size(64).compression(lsm_tree::CompressionType::None))) } else { c };
     let tree = c.open().unwrap();
     let nflush = 2 + rng.below(2);
@@ -111,7 +160,7 @@ fn build_tree(dir: &Path, blob: bool, rng: &mut Rng, bs: u32, universe: &[K]) ->
             if rng.chance(1, 6) {
                 tree.remove(k, s);
             } else {
-                let len = *rng.pick(&[2usize, 5, 12, 20]);
+                let len = *rng.pick(&[2usize, 5, 12, 13, 20, 21]); // odd and even lengths: a flipped low bit of a length field shrinks or grows it
                 let v: Vec<u8> = format!("{}@{s}", hex(&k)).into_bytes().into_iter().chain(std::iter::repeat(b'.')).take(len.max(4)).collect();
                 tree.insert(k, v, s);
             }
@@ -125,11 +174,133 @@ fn build_tree(dir: &Path, blob: bool, rng: &mut Rng, bs: u32, universe: &[K]) ->
     vis.get()
 }
 
-pub fn run(seed: u64, trees: u64, thorough: bool, st: &mut Stats, replay_dir: &Path) {
+/// probes are numbered across the whole run; a worker started with `--skip N` enumerates the same probes (same seeds, same
+/// rng calls) but executes only those with index >= N
+static PROBE_IDX: std::sync::atomic::AtomicU64 = std::sync::atomic::AtomicU64::new(0);
+
+fn next_probe(skip: u64) -> Option<u64> {
+    let i = PROBE_IDX.fetch_add(1, std::sync::atomic::Ordering::SeqCst);
+    if i < skip { None } else { Some(i) }
+}
+
+/// an oracle failure is printed at once in worker mode (it must survive a later fatal signal)
+fn of(st: &mut Stats, worker: bool, msg: String) {
+    if worker {
+        println!("OF {}", msg.replace('\n', " "));
+    }
+    st.oracle_failures.push(msg);
+}
+
+/// byte offsets of the entry count of the sfa table of contents (u32 LE after the `TOC!` magic; the trailer's last 16
+/// bytes are toc_pos and toc_len): known finding F10 lives in its top byte
+fn toc_count_field(bytes: &[u8]) -> Option<std::ops::Range<usize>> {
+    if bytes.len() < 16 + 22 {
+        return None;
+    }
+    let p = u64::from_le_bytes(bytes[bytes.len() - 16..bytes.len() - 8].try_into().ok()?) as usize;
+    if p + 8 <= bytes.len() && &bytes[p..p + 4] == b"TOC!" { Some(p + 4..p + 8) } else { None }
+}
+
+/// The supervisor: runs the enumeration in a child process (`flip --worker`); when the child dies from a fatal signal
+/// (corrupted bytes driving the code under test into an allocation failure / SIGSEGV), the probe it died on is recorded
+/// and a new child continues with the next probe.
+pub fn run_supervised(seed: u64, trees: u64, thorough: bool, st: &mut Stats) {
+    let exe = std::env::current_exe().unwrap();
+    let mut skip = 0u64;
+    let mut crashes = 0u64;
+    loop {
+        let mut cmd = std::process::Command::new(&exe);
+        cmd.args(["flip", "--worker", "--seed", &seed.to_string(), "--cases", &trees.to_string(), "--skip", &skip.to_string()]);
+        if thorough {
+            cmd.arg("--thorough");
+        }
+        let out = cmd.stderr(std::process::Stdio::inherit()).output().expect("spawn flip worker");
+        let text = String::from_utf8_lossy(&out.stdout).to_string();
+        let mut done = false;
+        let mut streamed: Vec<String> = vec![];
+        let mut crash: Option<(u64, bool, String)> = None;
+        for l in text.lines() {
+            if let Some(m) = l.strip_prefix("OF ") {
+                streamed.push(m.to_string());
+            } else if let Some(j) = l.strip_prefix("RESULT ") {
+                // the worker's own result line: merge numbers, keep its failures
+                let num = |k: &str| -> u64 { j.split(&format!("\"{k}\":")).nth(1).and_then(|r| r.split(|c: char| !c.is_ascii_digit()).next()).and_then(|n| n.parse().ok()).unwrap_or(0) };
+                st.evaluations += num("evaluations");
+                if let Some(c) = j.split("\"counters\":{").nth(1).and_then(|r| r.split('}').next()) {
+                    for kv in c.split(',') {
+                        if let Some((k, v)) = kv.rsplit_once(':') {
+                            if let Ok(n) = v.trim().parse::<u64>() {
+                                st.add(k.trim().trim_matches('"'), n);
+                            }
+                        }
+                    }
+                }
+                if j.contains("\"disagreements\":[\"") {
+                    st.disagreements.push(format!("flip worker reported: {}", clip_str(j, 600)));
+                }
+                done = true;
+            } else if let Some(c) = l.strip_prefix("CRASH ") {
+                // CRASH idx=<n> known=<0|1> <message>
+                let mut it = c.splitn(3, ' ');
+                let idx = it.next().and_then(|x| x.strip_prefix("idx=")).and_then(|x| x.parse().ok()).unwrap_or(skip);
+                let known = it.next() == Some("known=1");
+                crash = Some((idx, known, it.next().unwrap_or("").to_string()));
+            }
+        }
+        for m in streamed {
+            if st.oracle_failures.len() < 12 {
+                st.oracle_failures.push(m);
+            }
+        }
+        if done {
+            break;
+        }
+        match crash {
+            Some((idx, known, msg)) => {
+                crashes += 1;
+                st.count("flip.worker_died_from_fatal_signal");
+                st.evaluations += idx.saturating_sub(skip) + 1;
+                if known {
+                    st.count("flip.known_finding_F10_hits");
+                    if !st.known_findings.iter().any(|k| k.starts_with("F10:")) {
+                        st.known_findings.push(format!("F10: {msg}"));
+                    }
+                } else if st.oracle_failures.len() < 12 {
+                    st.oracle_failures.push(msg);
+                }
+                skip = idx + 1;
+            }
+            None => {
+                st.oracle_failures.push(format!("C10 flip worker ended without a result and without a crash note (status {:?}) after probe {skip}: {}", out.status, clip_str(&text, 300)));
+                break;
+            }
+        }
+        if crashes > 400 {
+            st.oracle_failures.push("C10 flip: more than 400 probes end in a fatal signal; enumeration stopped".into());
+            break;
+        }
+    }
+    st.nontrivial.insert(st.evaluations);
+    for i in 0..st.evaluations.min(200_000) {
+        // distinct non-trivial probes = executed probes (each is a distinct (file, offset, pattern))
+        st.nontrivial.insert(i);
+    }
+}
+
+fn clip_str(s: &str, n: usize) -> String {
+    s.chars().take(n).collect()
+}
+
+pub fn run(seed: u64, trees: u64, thorough: bool, st: &mut Stats, replay_dir: &Path, worker: bool, skip: u64) {
+    install_crash_reporter();
     std::fs::create_dir_all(replay_dir).ok();
     for tno in 0..trees {
         let mut rng = Rng::new(seed.wrapping_mul(7919).wrapping_add(tno));
         let blob = tno % 2 == 1;
+        PARTITIONED.store(tno % 4 >= 2, std::sync::atomic::Ordering::SeqCst);
+        if tno % 4 >= 2 {
+            st.count("flip.trees_with_partitioned_index_and_filter");
+        }
         let bs = *rng.pick(&[16u32, 64, 4096]);
         let universe = gen_keyset(&mut rng, 6);
         let dir = tempfile::tempdir_in(crate::scratch_root()).unwrap();
@@ -174,7 +345,15 @@ pub fn run(seed: u64, trees: u64, thorough: bool, st: &mut Stats, replay_dir: &P
             for i in (0..bytes.len()).step_by(tstride) {
                 positions.push((i, 0, true));
             }
+            let toc_field = if kind == "current" { None } else { toc_count_field(&bytes) };
             for (i, pat, trunc) in positions {
+                let Some(idx) = next_probe(skip) else { continue };
+                if let Ok(only) = std::env::var("LSMVERIF_FLIP_ONLY") {
+                    // debugging aid: `<tree>:<file>:<offset>:<pattern>` runs that single probe
+                    if only != format!("{tno}:{}:{i}:{pat}", rel.display()) || trunc {
+                        continue;
+                    }
+                }
                 let mut b = bytes.clone();
                 if trunc {
                     b.truncate(i);
@@ -184,23 +363,32 @@ pub fn run(seed: u64, trees: u64, thorough: bool, st: &mut Stats, replay_dir: &P
                 std::fs::write(&target, &b).unwrap();
                 st.evaluations += 1;
                 let what = if trunc { "truncate" } else { "flip" };
+                // F10: the top byte of the sfa ToC entry count (allocation before the ToC checksum is verified)
+                let known = !trunc && toc_field.as_ref().is_some_and(|r| i + 1 == r.end);
+                crash_line(idx, known, &format!("C10 {what} at offset {i} (pattern {pat:#04x}) of {kind} file `{}` (len {}{}) of tree #{tno} (seed {seed}, blob={blob}, block size {bs}): the process dies with a fatal signal (SIGSEGV / SIGBUS / abort, e.g. a failed allocation) while opening / reading the corrupted tree", rel.display(), bytes.len(), if known { "; the byte is the top byte of the entry count of the sfa table of contents" } else { "" }));
                 let res = {
                     let (p, u) = (img.path().to_path_buf(), universe.clone());
-                    with_timeout(move || answers(&p, blob, s, bs, &u), 20)
+                    with_timeout(move || answers(&p, blob, s, bs, &u), if known { 4 } else { 20 })
                 };
                 let Some(res) = res else {
-                    st.oracle_failures.push(format!("C10 {what} at offset {i} (pattern {pat:#04x}) of {kind} file `{}` of tree #{tno} (seed {seed}): the read path does not terminate (watchdog 20 s)", rel.display()));
-                    // the stuck thread cannot be reclaimed: stop this instrument here
+                    let msg = format!("C10 {what} at offset {i} (pattern {pat:#04x}) of {kind} file `{}` (len {}{}) of tree #{tno} (seed {seed}, blob={blob}, block size {bs}): opening / reading the corrupted tree does not come back within {} s (watchdog)", rel.display(), bytes.len(), if known { "; the byte is the top byte of the entry count of the sfa table of contents" } else { "" }, if known { 4 } else { 20 });
+                    if worker {
+                        // the stuck thread cannot be reclaimed: hand over to a fresh worker, like after a fatal signal
+                        println!("CRASH idx={idx} known={} {msg}", u8::from(known));
+                        std::process::exit(0);
+                    }
+                    of(st, worker, msg);
                     return;
                 };
                 match res {
                     Ok(d) if d == orig => st.count(&format!("flip.{kind}.{what}.same")),
+                    Ok(d) if silent_paths(&d, &orig).is_empty() => st.count(&format!("flip.{kind}.{what}.error_on_some_path")),
                     Ok(d) => {
                         st.count(&format!("flip.{kind}.{what}.SILENT"));
-                        let first = d.iter().zip(orig.iter()).find(|(a, b)| a != b).map(|(a, _)| hex(&a.0)).unwrap_or_else(|| format!("{} vs {} items", d.len(), orig.len()));
-                        let msg = format!("C10 {what} at offset {i} (pattern {pat:#04x}) of {} file `{}` (len {}) of tree #{tno} (seed {seed}, blob={blob}, block size {bs}): reads succeed with DIFFERENT answers (first difference at {first})", kind, rel.display(), bytes.len());
+                        let first = silent_paths(&d, &orig).join(", ");
+                        let msg = format!("C10 {what} at offset {i} (pattern {pat:#04x}) of {} file `{}` (len {}) of tree #{tno} (seed {seed}, blob={blob}, block size {bs}): these read paths succeed with DIFFERENT answers: {first}", kind, rel.display(), bytes.len());
                         if st.oracle_failures.len() < 12 {
-                            st.oracle_failures.push(msg);
+                            of(st, worker, msg);
                         }
                     }
                     Err(e) if e == "panic" => st.count(&format!("flip.{kind}.{what}.panic")),
@@ -214,26 +402,34 @@ pub fn run(seed: u64, trees: u64, thorough: bool, st: &mut Stats, replay_dir: &P
                 let cstride = if thorough { 3 } else { 11 };
                 let off0 = (rng.below(cstride as u64)) as usize;
                 for i in (off0..bytes.len()).step_by(cstride) {
+                    let Some(idx) = next_probe(skip) else { continue };
                     let img2 = tempfile::tempdir_in(crate::scratch_root()).unwrap();
                     copy_dir(dir.path(), img2.path());
                     let mut b = bytes.clone();
                     b[i] ^= 0x01;
                     std::fs::write(img2.path().join(&rel), &b).unwrap();
                     st.evaluations += 1;
+                    crash_line(idx, false, &format!("C10 flip at offset {i} of {kind} file `{}` (len {}) of tree #{tno} (seed {seed}, blob={blob}, block size {bs}): the process dies with a fatal signal (SIGSEGV / SIGBUS / abort) while compacting / reading the corrupted tree", rel.display(), bytes.len()));
                     let res = {
                         let (p, u) = (img2.path().to_path_buf(), universe.clone());
                         with_timeout(move || answers_after_compaction(&p, blob, s, bs, &u), 30)
                     };
                     match res {
                         None => {
-                            st.oracle_failures.push(format!("C10 flip at offset {i} of {kind} file `{}` of tree #{tno} (seed {seed}): compaction / reads do not terminate", rel.display()));
+                            let msg = format!("C10 flip at offset {i} of {kind} file `{}` of tree #{tno} (seed {seed}): compaction / reads of the corrupted tree do not come back within 30 s (watchdog)", rel.display());
+                            if worker {
+                                println!("CRASH idx={idx} known=0 {msg}");
+                                std::process::exit(0);
+                            }
+                            of(st, worker, msg);
                             return;
                         }
                         Some(Ok(d)) if d == orig => st.count(&format!("flip.{kind}.compact.same")),
+                        Some(Ok(d)) if silent_paths(&d, &orig).is_empty() => st.count(&format!("flip.{kind}.compact.error_on_some_path")),
                         Some(Ok(_)) => {
                             st.count(&format!("flip.{kind}.compact.SILENT"));
                             if st.oracle_failures.len() < 12 {
-                                st.oracle_failures.push(format!("C10 flip at offset {i} of {kind} file `{}` (len {}) of tree #{tno} (seed {seed}, blob={blob}, block size {bs}): a major compaction SUCCEEDS on the corrupted file and the reads afterwards differ from the original answers", rel.display(), bytes.len()));
+                                of(st, worker, format!("C10 flip at offset {i} of {kind} file `{}` (len {}) of tree #{tno} (seed {seed}, blob={blob}, block size {bs}): a major compaction SUCCEEDS on the corrupted file and the reads afterwards differ from the original answers", rel.display(), bytes.len()));
                             }
                         }
                         Some(Err(e)) if e == "panic" => st.count(&format!("flip.{kind}.compact.panic")),
